@@ -146,6 +146,17 @@ class Check(PropCheck):
             ops = ['sel 0', gen.parse_op(gen.to_newick(t)), 'pick leaf %d' % rng.randint(0, 10 ** 6), 'prune $0',
                    'add_child $0 %s - -' % vf.enc_str('ghost'), 'merge $0 $0 - - - -', 'compress', 'dump', 'partitions']
             cases.append(Case('g%d' % j, ops, {'rename_seq': False, 'single': True}))
+        for j in range(60 if self.tier == 'quick' else 1000):
+            # a refused weighted comparison (one informative branch lacks its length) must leave the split cache usable
+            n = rng.randint(4, 10)
+            names = ['w%d' % i for i in range(n)]
+            t = gen.rand_tree(rng, n, 'exact', p_multi=0.2, internal_names=0.3, names=names)
+            inner = [x for x in t.nodes()[1:] if x.children]
+            if inner:
+                rng.choice(inner).length = None
+            ops = ['sel 0', gen.parse_op(gen.to_newick(t))] + (['partitions'] if rng.random() < 0.5 else [])
+            ops += rng.sample(['wrf 0', 'kf 0', 'cmp_topo 0', 'cmp_branch 0 1', 'cmp_branch 0 0'], rng.randint(1, 3)) + ['dump', 'partitions']
+            cases.append(Case('q%d' % j, ops, {'rename_seq': False, 'single': True}))
         for j in range(80 if self.tier == 'quick' else 1500):
             n = rng.randint(4, 12)
             names = ['m%02d' % i for i in range(n)]
